@@ -244,8 +244,9 @@ def main():
     def uncovered(c):
         out = []
         for f in c.failures:
-            fid = f.get("finding")
-            if fid in active and f.get("model_violates") is not False:
+            fids = f.get("finding")
+            fids = fids if isinstance(fids, (list, tuple)) else [fids]
+            if any(fid in active for fid in fids) and f.get("model_violates") is not False:
                 continue
             out.append(f)
         return out
